@@ -379,10 +379,6 @@ int KSI_MetaDataElement_fromTlv(KSI_TLV *tlv, KSI_MetaDataElement **metaData) {
 		goto cleanup;
 	}
 
-	/* Make sure the content is valid. */
-	res = metaDataElementTlv_verify(tlv);
-	if (res != KSI_OK) goto cleanup;
-
 	res = KSI_MetaDataElement_new(KSI_TLV_getCtx(tlv), &tmp);
 	if (res != KSI_OK) goto cleanup;
 
@@ -390,6 +386,8 @@ int KSI_MetaDataElement_fromTlv(KSI_TLV *tlv, KSI_MetaDataElement **metaData) {
 	tmp->impl->ftlv.is_fwd = KSI_TLV_isForward(tlv);
 	tmp->impl->ftlv.is_nc = KSI_TLV_isNonCritical(tlv);
 
+	/* The element keeps the payload as it is encoded in the input: the content check below expands the TLV,
+	 * after which its raw value would be a re-encoding (shortest headers) of the nested elements. */
 	/* Cast is safe, as we are not about to change the value. */
 	res = KSI_TLV_getRawValue(tlv, (const unsigned char **)&ptr, &len);
 	if (res != KSI_OK) goto cleanup;
@@ -399,6 +397,10 @@ int KSI_MetaDataElement_fromTlv(KSI_TLV *tlv, KSI_MetaDataElement **metaData) {
 
 	/* Detach the element. */
 	res = KSI_TlvElement_detach(tmp->impl);
+	if (res != KSI_OK) goto cleanup;
+
+	/* Make sure the content is valid. */
+	res = metaDataElementTlv_verify(tlv);
 	if (res != KSI_OK) goto cleanup;
 
 	*metaData = tmp;
